@@ -209,6 +209,43 @@ class Oracle:
                 self.ctx.violation("C12:instances-share-state", f"decoder {k}: step {step} ({self.pool[hs[k][step]][0]}) differs when another AutoDecoder object is used in between: {got[k][step][1:]} vs alone {want[k][step][1:]}",
                                    {"history": [self.pool[i][0] for i in hs[k]], "payloads": [self.pool[i][3] for i in hs[k]], "step": step, "api": "payload"})
 
+    def history_across_threads(self, hist: tuple) -> None:
+        """The calls of one history are strictly sequential but come from different threads (executor threads decode, the main
+        thread reads the state): the AutoDecoder's history belongs to the object, not to the calling thread."""
+        import threading
+
+        def solo():
+            d = self.AutoDecoder()
+            out = []
+            for pi in hist:
+                out.append((d.decode_message_payload(self.pool[pi][3]), d.previous_success_decoder))
+            return out
+
+        try:
+            want = solo()
+        except BaseException:
+            return
+        dec = self.AutoDecoder()
+        got = []
+
+        def step(pi):
+            try:
+                got.append([dec.decode_message_payload(self.pool[pi][3]), None])
+            except BaseException as ex:  # noqa
+                got.append([("raised", type(ex).__name__), None])
+
+        for pi in hist:
+            t = threading.Thread(target=step, args=(pi,))
+            t.start()
+            t.join()
+            got[-1][1] = dec.previous_success_decoder  # read in the main thread
+        self.ctx.count("histories_across_threads")
+        got = [tuple(g) for g in got]
+        if got != want:
+            k = next(i for i, (g, w) in enumerate(zip(got, want)) if g != w)
+            self.ctx.violation("C12:history-depends-on-calling-thread", f"step {k} ({self.pool[hist[k]][0]}): called from a fresh thread -> decoder {got[k][1]!r}, in one thread -> {want[k][1]!r}",
+                               {"history": [self.pool[i][0] for i in hist], "payloads": [self.pool[i][3] for i in hist], "step": k, "api": "payload"})
+
     def check_frame_collision(self, rng) -> None:
         """Two valid HDLC frames of equal length and equal FCS but different content, decoded one after the other through
         decode_message on one AutoDecoder: each result must be that of its own payload."""
@@ -322,6 +359,8 @@ def run(shard, ctx):
                     hist = tuple(rng.choice(same) for _ in range(length))
                 else:
                     hist = tuple(rng.randrange(n) for _ in range(length))
+                if i % 7 == 0:
+                    o.history_across_threads(hist[:10])
                 if i % 5 == 0:
                     o.twin(hist[:8], tuple(rng.randrange(n) for _ in range(rng.randint(2, 8))), rng)
                 nt = o.run_history(hist, "payload" if rng.random() < 0.8 else "message")
